@@ -18,8 +18,12 @@ def gen_models(ctx, n, pid=None):
     ms += handmade()
     if pid == "C11":
         ms += wild_cycles(rng, max(40, n // 6))
+    if pid in ("C11", "C06"):
+        ms += wild_fans(rng, max(30, n // 8))
     if pid in ("C04", "C05", "C06"):
         ms += constrained_cycles(rng, max(60, n // 5))
+    if pid in ("C05", "C10"):
+        ms += dangling_ttus(rng, max(40, n // 8))
     return ms
 
 
@@ -68,6 +72,112 @@ def constrained_cycles(rng, n):
         order = list(zip(rl, ml))
         rng.shuffle(order)
         types = [[S("user"), [], []], [S("doc"), [x[0] for x in order], [[[x[1] for x in order], [], []]]]]
+        out.append([S("1.1"), types, []])
+    return out
+
+
+def dangling_ttus(rng, n):
+    """no cycle: a tuple-to-userset whose tupleset relation has no type restrictions (defined by a rewrite only, its
+    metadata entry empty or absent), or one of whose parent types lacks the computed relation — alone, or as one
+    operand of a union / intersection / exclusion (possibly nested) whose other operands are fine: the model must be
+    rejected wherever the reference stands; the sound variants (about a third) must be accepted"""
+    out = []
+    for _ in range(n):
+        kind = rng.choice(["empty-meta", "no-meta", "parent-lacks", "sound", "sound"])
+        types = [[S("user"), [], []]]
+        frl = [[S("admin"), [1, 1]], [S("member"), [1, 1]]]
+        fml = [[S("admin"), [[[S("user"), [0], []]], [], []]], [S("member"), [[[S("user"), [0], []]], [], []]]]
+        types.append([S("folder"), frl, [[fml, [], []]]])
+        types.append([S("team"), [[S("member"), [1, 1]]], [[[[S("member"), [[[S("user"), [0], []]], [], []]]], [], []]]])
+        rl = [[S("owner"), [1, 1]]]
+        ml = [[S("owner"), [[[S("folder"), [0], []]], [], []]]]
+        if kind == "empty-meta":
+            rl.append([S("parent"), [2, S("owner")]])
+            ml.append([S("parent"), [[], [], []]])
+        elif kind == "no-meta":
+            rl.append([S("parent"), [2, S("owner")]])
+        elif kind == "parent-lacks":
+            rl.append([S("parent"), [1, 1]])
+            ps = [[S("folder"), [0], []], [S("team"), [0], []]]
+            rng.shuffle(ps)
+            ml.append([S("parent"), [ps, [], []]])
+        else:
+            rl.append([S("parent"), [1, 1]])
+            ml.append([S("parent"), [[[S("folder"), [0], []]], [], []]])
+        ttu = [3, S("parent"), S("admin")]
+        other = lambda: rng.choice([[2, S("owner")], [3, S("owner"), S("member")], [2, S("editor")]])
+        place = rng.choice(["alone", "union", "union-last", "inter", "diff-base", "diff-sub", "nested", "two"])
+        th = [1, 1]
+        if place == "alone":
+            u = ttu
+        elif place == "union":
+            u = [4, th, ttu] if rng.random() < 0.5 else [4, ttu, th]
+        elif place == "union-last":
+            u = [4, th, other(), ttu]
+        elif place == "inter":
+            u = [5, th, ttu] if rng.random() < 0.5 else [5, ttu, th]
+        elif place == "diff-base":
+            u = [6, ttu, th]
+        elif place == "diff-sub":
+            u = [6, th, ttu]
+        elif place == "nested":
+            u = [4, th, [rng.choice([4, 5]), other(), ttu]]
+        else:
+            u = [4, ttu, [3, S("parent"), S("member")]] if rng.random() < 0.5 else [4, th, ttu, [3, S("parent"), S("member")]]
+        rl.append([S("editor"), [1, 1]])
+        ml.append([S("editor"), [[[S("user"), [0], []]], [], []]])
+        rl.append([S("viewer"), u])
+        ml.append([S("viewer"), [[[S("user"), [0], []]], [], []]])
+        order = list(zip(rl, ml)) if False else None
+        idx = list(range(len(rl)))
+        rng.shuffle(idx)
+        names_with_meta = {T(x[0]) for x in ml}
+        rl2 = [rl[i] for i in idx]
+        ml2 = [x for x in (next((y for y in ml if T(y[0]) == T(r[0])), None) for r in rl2) if x is not None]
+        types.append([S("doc"), rl2, [[ml2, [], []]]])
+        rng.shuffle(types)
+        out.append([S("1.1"), types, []])
+    return out
+
+
+def wild_fans(rng, n):
+    """no cycle: one relation that reaches three to seven public types, and several relations that each take that
+    relation's list (through a userset restriction, a computed userset or a tuple-to-userset) and add public
+    types of their own: every node and edge must end with its OWN list, whatever the others add later"""
+    out = []
+    pub = ["p%d" % i for i in range(9)]
+    for _ in range(n):
+        nb = rng.choice([3, 3, 4, 5, 6, 7])
+        base_types = rng.sample(pub, nb)
+        rest = [t for t in pub if t not in base_types]
+        types = [[S(t), [], []] for t in pub]
+        rl = [[S("base"), [1, 1]], [S("parent"), [1, 1]]]
+        ml = [[S("base"), [[[S(t), [2], []] for t in base_types], [], []]],
+              [S("parent"), [[[S("doc"), [0], []]], [], []]]]
+        names = ["base"]
+        for j in range(rng.choice([2, 2, 3, 4])):
+            src = rng.choice(names) if rng.random() < 0.3 else "base"
+            own = [[S(t), [2], []] for t in rng.sample(rest, rng.choice([1, 1, 2]))]
+            how = rng.choice(["userset", "computed", "ttu"])
+            if how == "userset":
+                refs = [[S("doc"), [1, S(src)], []]] + own
+                if rng.random() < 0.3:
+                    rng.shuffle(refs)
+                u = [1, 1]
+            elif how == "computed":
+                refs = own
+                u = [4, [2, S(src)], [1, 1]] if rng.random() < 0.7 else [4, [1, 1], [2, S(src)]]
+            else:
+                refs = own
+                u = [4, [3, S("parent"), S(src)], [1, 1]] if rng.random() < 0.7 else [4, [1, 1], [3, S("parent"), S(src)]]
+            name = "n%d" % j
+            rl.append([S(name), u])
+            ml.append([S(name), [refs, [], []]])
+            names.append(name)
+        order = list(zip(rl, ml))
+        rng.shuffle(order)
+        types.append([S("doc"), [x[0] for x in order], [[[x[1] for x in order], [], []]]])
+        rng.shuffle(types)
         out.append([S("1.1"), types, []])
     return out
 
@@ -152,6 +262,9 @@ def handmade():
                         [S("viewer"), [[], [], []]]], [], []]]]],
          [[S("condX"), [S("condX"), S("x > 0"), [[S("x"), [4]]], []]]]],
         M([("user", []), ("group", []), ("doc", [("a", th, [U("group")]), ("b", th, [U("group")]), ("x", [5, th, c("a"), c("b")], [U("user")])])]),
+        # three public types under one relation, two relations that extend its list differently
+        M([("a", []), ("b", []), ("c", []), ("d", []), ("e", []),
+           ("doc", [("three", th, [W("a"), W("b"), W("c")]), ("n1", th, [Rr("doc", "three"), W("d")]), ("n2", th, [Rr("doc", "three"), W("e")])])]),
     ]
 
 
@@ -216,6 +329,22 @@ def evaluate(ctx, pid, results):
                                "cycle_info": ci, "impl": (a if a[0] != "ok" else "accepted")})
                 break
             else:
+                # the unhooked Build (start order = Go's map order) is one more traversal order
+                for b in r["builds"]:
+                    acc = b[0] == "ok"
+                    if acc == wf:
+                        continue
+                    if known_cyc and acc:
+                        ctx.count("known_finding_K-WG-cycles")
+                        continue
+                    if known_ops:
+                        ctx.count("known_finding_K-C04-operands")
+                        continue
+                    ctx.violation("accepted-not-well-founded" if acc else "rejected-well-founded",
+                                  {"model": m, "order": "Build (map iteration order)",
+                                   "why": ("a model that is not well-founded is accepted" if acc else "a well-founded model is rejected"),
+                                   "cycle_info": ci, "impl": (b if b[0] != "ok" else "accepted")})
+                    break
                 if len(ctx.samples) < 3 and nontriv:
                     ctx.sample({"model": m, "well_founded": wf, "verdicts": [a[0] for (_, a, _) in r["ordered"]]})
         elif pid == "C04":
@@ -302,7 +431,7 @@ def evaluate(ctx, pid, results):
 RULES = {
     "C04": "weights of every relation node against the maximum tuple-hop depth computed on the model (least fixed point), the edge rule on every edge, no placeholder key",
     "C05": "accept/reject per depth-first start order against well-foundedness computed on the model",
-    "C06": "all outcomes of one model compared: explicit start orders (insertion, reversed, random), the unhooked Build repeated, permuted type definitions",
+    "C06": "all outcomes of one model compared: explicit start orders (insertion, reversed, random), the unhooked Build repeated, permuted type definitions; histories: one builder object building sequences of different models, sequentially and concurrently, against a fresh builder per model",
     "C10": "graph structure decoded and compared with the model: node inventory, operand edges in source order, edge kinds, labels, conditions; the input model unchanged",
     "C11": "wildcard lists of nodes and edges against reachability of T:* nodes in the built graph, and duplicate-freedom",
 }
@@ -347,10 +476,58 @@ def run_for(ctx, pid):
     if pid == "C05":
         gc.coq_spec_check(ctx, res, what="verdict")
     evaluate(ctx, pid, res)
+    if pid == "C06":
+        history_phase(ctx, res)
+
+
+def history_phase(ctx, res, groups=None):
+    """C06, histories: ONE builder object builds several different models, one after the other and from several
+    goroutines at once; each outcome must be the one a fresh builder gives.  Only models whose outcome was the same
+    in every build of the main phase take part (the others are inside a known finding or already reported)."""
+    if groups is None:
+        det = []
+        for r in res:
+            if r is None or gs.degenerate(r["m"]):
+                continue
+            allr = [a for (_, a, _) in r["ordered"]] + r["builds"] + r.get("variant", [])
+            if allr and all(gg.same_verdict(a, allr[0]) for a in allr):
+                det.append(r["m"])
+        ctx.rng.shuffle(det)
+        size = 5
+        groups = [det[i:i + size] for i in range(0, len(det), size)]
+        groups = [g for g in groups if len(g) >= 2][: (60 if ctx.tier == "quick" else 300)]
+    impl = ctx.impl([{"op": "wgraph_shared", "ms": g, "rounds": 2 if ctx.tier == "quick" else 4} for g in groups])
+    for g, i in zip(groups, impl):
+        if "r" not in i:
+            ctx.violation("entry-point-abnormal", {"op": "wgraph_shared", "models": g, "impl": {x: i.get(x) for x in ("panic", "timeout", "bad")}})
+            continue
+        x = i["r"]
+        fresh = [gg.norm_impl_g(a) for a in x["fresh"]]
+        runs = [("one builder, models built one after the other", [gg.norm_impl_g(a) for a in x["seq"]])]
+        runs += [("one builder, models built concurrently", [gg.norm_impl_g(a) for a in c]) for c in x["conc"]]
+        ctx.count("history_groups")
+        bad = None
+        for how, outs in runs:
+            for k, (a, b) in enumerate(zip(fresh, outs)):
+                ctx.count("history_builds_compared")
+                if not gg.same_verdict(a, b):
+                    bad = (how, k, a, b)
+                    break
+            if bad:
+                break
+        if bad:
+            how, k, a, b = bad
+            ctx.violation("history-dependent", {"models": g, "index": k, "why": "%s: model %d of the sequence gets another outcome than from a fresh builder" % (how, k),
+                                                "fresh": str(a)[:500], "shared": str(b)[:500]})
 
 
 def replay_for(ctx, pid, data):
     d = data["detail"]
+    if "models" in d and pid == "C06":
+        history_phase(ctx, [], groups=[d["models"]])
+        for v in ctx.violations:
+            print(json.dumps(v, indent=1, ensure_ascii=False)[:3000])
+        return 1 if ctx.violations else 0
     if "model" not in d:
         print(json.dumps(d, indent=1)[:4000])
         return 1
